@@ -191,3 +191,34 @@ Example C05_orefa_example :
   /\ o_stat (ow_fs (fst (orun (o_init_world_linux 18) cs))) (abs_path [a; d])
      = RInfo {| fi_name := d; fi_size := 1; fi_mode := 420; fi_uid := 0; fi_gid := 0; fi_nlink := 2; fi_id := 6 |}.
 Proof. vm_compute. split; reflexivity. Qed.
+
+(* ---- the key rewrite of Rename and the order of the Go range loop -------------------------------------------- *)
+(* [o_rekey_go order] is the loop of Rename for the visiting order [order] (OrefaFS.v).
+   (a) When the new path is not below the old one - what Rename checks since fix 0006 - the visiting order and
+       revisiting inserted keys do not matter and the result is the map [o_rekey] the model uses: shown here on an
+       instance (three orders, one of them visiting the inserted keys again); in general by the argument in
+       OrefaFS.v (no inserted key matches the prefix), not proved.
+   (b) Without that check the result depends on the order: Rename("/a", "/a/b") - two orders, two different maps.
+       This is the order-dependence of the unfixed code made explicit. *)
+Example rekey_order_instance :
+  let a := [97%N] in let b := [98%N] in let c := [99%N] in let x := [120%N] in
+  let idx := [([], 0); ([SLASH], 0); (rpath [x], 1); (rpath [a; b], 3); (rpath [a; b; c], 4); (rpath [a; c], 5)] in
+  let o := rpath [a] in let n := rpath [x; a] in
+  let look (l : list (str * nat)) (k : str) := ikey l k in
+  let ks := [rpath [x; a; b]; rpath [x; a; b; c]; rpath [x; a; c]; rpath [a; b]; rpath [a; c]; rpath [x]] in
+  map (look (o_rekey_go Linux o n (map fst idx) idx)) ks = map (look (o_rekey Linux o n idx)) ks
+  /\ map (look (o_rekey_go Linux o n (rev (map fst idx)) idx)) ks = map (look (o_rekey Linux o n idx)) ks
+  /\ map (look (o_rekey_go Linux o n (map fst idx ++ [rpath [x; a; b]; rpath [a; b]; rpath [x; a; c]]) idx)) ks
+     = map (look (o_rekey Linux o n idx)) ks.
+Proof. vm_compute. repeat split. Qed.
+
+Example rekey_order_dependence_unfixed :
+  let a := [97%N] in let b := [98%N] in let c := [99%N] in
+  (* the node map in the middle of the unfixed Rename("/a", "/a/b"): "/a" already re-bound to "/a/b" *)
+  let idx := [([], 0); ([SLASH], 0); (rpath [a; b], 1); (rpath [a; c], 2)] in
+  let o := rpath [a] in let n := rpath [a; b] in
+  (* visiting "/a/b" first re-keys the entry just inserted and then, revisiting, the result again ... *)
+  ikey (o_rekey_go Linux o n [rpath [a; b]; rpath [a; c]; rpath [a; b; b]] idx) (rpath [a; b; b; b]) = Some 1
+  (* ... visiting the keys once in the other order does not *)
+  /\ ikey (o_rekey_go Linux o n [rpath [a; c]; rpath [a; b]] idx) (rpath [a; b; b; b]) = None.
+Proof. vm_compute. split; reflexivity. Qed.
